@@ -411,7 +411,7 @@ def event_arms(prog, fa):
         if t['k'] != 'switch':
             continue
         e = fa.operand(t['d'], (b, len(bb['s'])))
-        if e[0] == 'discr' and 'TriggerEvent' in e[2]:
+        if e[0] == 'discr' and e[2].split('<')[0].lstrip('&').endswith('event::TriggerEvent'):
             arms = {}
             for (v, tgt) in t['ts']:
                 if v in names:
